@@ -5,15 +5,15 @@ EXTENDS WalletLedger, TLC
 CONSTANTS MaxSteps
 VARIABLES s, steps, next
 vars == <<s, steps, next>>
-K == {[id |-> 1, change |-> 0], [id |-> 2, change |-> 0], [id |-> 3, change |-> 1]}
+K == {[id |-> 1, change |-> 0, acct |-> 0], [id |-> 2, change |-> 0, acct |-> 1], [id |-> 3, change |-> 1, acct |-> 0]}
 Reports == {[t |-> 1, n |-> 0, v |-> 5, key |-> 1, conf |-> 1], [t |-> 1, n |-> 1, v |-> 7, key |-> 2, conf |-> 0],
             [t |-> 2, n |-> 0, v |-> 5, key |-> 1, conf |-> 3]}
-Qm == [recips |-> <<[id |-> 0, v |-> 4]>>, fee |-> -1, minconf |-> 0, inkeys |-> {}, sweep |-> FALSE, feemin |-> 0, feemax |-> 0, nexplicit |-> 0, explicit |-> {}, above |-> -1]
+Qm == [recips |-> <<[id |-> 0, v |-> 4]>>, fee |-> -1, minconf |-> 0, inkeys |-> {}, sweep |-> FALSE, feemin |-> 0, feemax |-> 0, nexplicit |-> 0, explicit |-> {}, above |-> -1, acct |-> 0]
 Init == s = [InitS EXCEPT !.keys = K] /\ steps = 0 /\ next = 10
 Receive == \E r \in Reports : s' = UtxosUpdate(s, <<r>>, FALSE) /\ UNCHANGED next
 Update == \E R \in SUBSET Reports : \E q \in [1..Cardinality(R) -> R] :
              (\A i, j \in 1..Cardinality(R) : i # j => q[i] # q[j]) /\ s' = UtxosUpdate(s, q, TRUE) /\ UNCHANGED next
-Send == \E I \in (SUBSET Spendable(s, Qm)) \ {{}} : \E fee \in 0..2 :
+Send == \E a \in {0, 1} : \E I \in (SUBSET Spendable(s, [Qm EXCEPT !.acct = a])) \ {{}} : \E fee \in 0..2 :
            LET tot == SumV(I)
                insq == CHOOSE f \in [1..Cardinality(I) -> I] : \A i, j \in 1..Cardinality(I) : i # j => f[i] # f[j]
                change == tot - 4 - fee
@@ -21,8 +21,8 @@ Send == \E I \in (SUBSET Spendable(s, Qm)) \ {{}} : \E fee \in 0..2 :
                      outs |-> <<[v |-> 4, key |-> 0, rid |-> 1]>> \o (IF change > 0 THEN <<[v |-> change, key |-> 3, rid |-> 0]>> ELSE <<>>),
                      fee |-> IF change >= 0 THEN fee ELSE 0, vsize |-> 0] IN
            /\ change >= 0
-           /\ TxWhy(s, Qm, x) = "ok"
-           /\ ~Insufficient(s, Qm)
+           /\ TxWhy(s, [Qm EXCEPT !.acct = a], x) = "ok"
+           /\ ~Insufficient(s, [Qm EXCEPT !.acct = a])
            /\ s' = Broadcast(s, x, next) /\ next' = next + 1
 Del == \E t \in {y.t : y \in s.txs} \cup {c.t : c \in s.coins} : s' = Delete(s, t) /\ UNCHANGED next
 Next == steps < MaxSteps /\ steps' = steps + 1 /\ (Receive \/ Update \/ Send \/ Del)
@@ -31,6 +31,8 @@ Spec == Init /\ [][Next]_vars
 RECURSIVE SumKeys(_)
 SumKeys(S) == IF S = {} THEN 0 ELSE LET k == CHOOSE x \in S : TRUE IN KeyBalance(s, k.id) + SumKeys(S \ {k})
 BalanceIsSumOfKeys == Balance(s) = SumKeys(s.keys)
+\* the accounts partition the balance
+BalanceIsSumOfAccounts == Balance(s) = BalanceA(s, 0) + BalanceA(s, 1)
 \* an output consumed by a stored transaction is never listed as unspent
 NoSpentListed == \A c \in Unspent(s) : ~SpentInDb(s, c.t, c.n)
 OneCoinPerOutpoint == \A c, d \in s.coins : (c.t = d.t /\ c.n = d.n) => c = d
